@@ -1,7 +1,8 @@
 """Translator: 21 functions of pyemv -> Lean definitions over the Python prelude: all of tools.py
 (xor, odd_parity, adjust_key_parity, key_check_digits, encrypt_tdes_cbc, encrypt_tdes_ecb), all of mac.py
 (both paddings and mac_iso9797_3 with its two live cipher contexts), all of ac.py, sm.py and cvv.py, and
-kd.py except the EMV2000 tree.
+all of kd.py including the EMV2000 tree (nested defs lifted, recursion on the height) — every public function
+outside tlv.py.
 
 The accepted subset is what those functions are written in: guards (`if … : raise …`), `None` defaults,
 `isinstance(x, bytes)` decoding, slices with constant/`len` bounds, `+`/`*` on bytes and str, integer
@@ -12,8 +13,8 @@ kd.py uses, if/elif chains that return or assign, the one loop form `for i, x in
 length check, `.encryptor()/.decryptor()` a chaining value that every `.update(x)` reads and writes, so that
 "the same encryptor goes on" in mac_iso9797_3 is translated, not assumed.  Anything else makes the
 translation fail loudly (exit 3) — nothing is guessed.  Exception *messages* are not translated (only the
-class).  Not translated: the EMV2000 tree (nested closures, recursion) and all of tlv.py (loops,
-try/except); they stay hand-modelled and differentially tied.  What `tdesKeys`, `encBlock`, `cbcEncUpdate`,
+class).  Not translated: tlv.py (loops, try/except, dict aliasing); it stays hand-modelled and tied by
+complete enumeration.  What `tdesKeys`, `encBlock`, `cbcEncUpdate`,
 `a2bHex`, `sha1Hex` … *mean* is the hand-written prelude (modelled OpenSSL / CPython behaviour).
 
 `lean/PyemvGen/ModGen.lean` is regenerated from the repository's current source on every run;
@@ -29,15 +30,15 @@ FUNCS = {
     "tools": ["xor", "odd_parity", "adjust_key_parity", "key_check_digits", "encrypt_tdes_cbc", "encrypt_tdes_ecb"],
     "mac": ["pad_iso9797_1", "pad_iso9797_2", "mac_iso9797_3"],
     "ac": ["generate_ac", "generate_arpc_1", "generate_arpc_2"],
-    "kd": ["derive_icc_mk_a", "derive_icc_mk_b", "derive_common_sk", "derive_visa_sm_sk"],
+    "kd": ["derive_icc_mk_a", "derive_icc_mk_b", "derive_common_sk", "derive_visa_sm_sk", "derive_emv2000_tree_sk"],
     "sm": ["generate_command_mac", "encrypt_command_data", "format_vis_pin_block", "format_iso9564_2_pin_block"],
     "cvv": ["generate_cvc3"],
 }
-ANN = {"__int_param__": "I", "bytes": "B", "_typing.Union[bytes, bytearray]": "B", "_typing.Union[bytes, str]": "SB",
+ANN = {"_typing.Tuple[bytes, bytes]": "BB", "__int_param__": "I", "bytes": "B", "_typing.Union[bytes, bytearray]": "B", "_typing.Union[bytes, str]": "SB",
        "_typing.Optional[_typing.Union[bytes, str]]": "OSB", "_typing.Optional[bytes]": "OB",
        "_typing.Optional[int]": "ON", "int": "N", "_typing.Optional[PaddingType]": "OPT",
        "EncryptionType": "ET", "str": "S"}
-LEAN_TY = {"U8": "UInt8", "B": "Bytes", "S": "PyStr", "SB": "StrOrBytes", "OSB": "Option StrOrBytes", "OB": "Option Bytes",
+LEAN_TY = {"BB": "Bytes × Bytes", "U8": "UInt8", "B": "Bytes", "S": "PyStr", "SB": "StrOrBytes", "OSB": "Option StrOrBytes", "OB": "Option Bytes",
            "ON": "Option Nat", "N": "Nat", "OPT": "Option PaddingType", "PT": "PaddingType", "ET": "EncryptionType",
            "OS": "Option PyStr", "I": "Int"}
 # hand-modelled callees: name -> (lean, arg kinds, result kind, monadic)
@@ -78,6 +79,9 @@ class Fn:
         self.mod = mod; self.fn = fn
         self.types = {}
         self.tmp = 0
+        self.pre_defs = []  # Lean text of nested functions, emitted before the enclosing definition
+        self.local_fns = {}  # nested functions: name -> (lean name, closure names, kinds, result kind)
+        self.rec = None     # (own name, recursion parameter, predecessor variable) while translating a recursive nested def
         self.ciph = {}      # cipher objects: name -> (ks var, mode, iv term)
         self.ctx = {}       # live encryptor / decryptor contexts: name -> dict(ks, mode, dir, st)
 
@@ -178,6 +182,11 @@ class Fn:
                 if ka == "PT":
                     return f"{a}.value", "I"
             raise Unsupported("attribute " + s)
+        if isinstance(e, ast.Tuple) and len(e.elts) == 2:
+            a, ka = self.expr(e.elts[0], out, ind); b, kb = self.expr(e.elts[1], out, ind)
+            if ka == kb == "B":
+                return f"({a}, {b})", "BB"
+            raise Unsupported("tuple " + ast.unparse(e))
         if isinstance(e, ast.Call):
             return self.call(e, out, ind)
         raise Unsupported("expression " + ast.unparse(e))
@@ -300,6 +309,24 @@ class Fn:
                 a, ka = self.expr(ia[0].func.value, out, ind)
                 if ka == "B":
                     return f"(pyStr (fromBE {a}))", "S"
+        if fs in self.local_fns or (self.rec and fs == self.rec[0]):
+            if self.rec and fs == self.rec[0]:
+                lean, clos, kinds, rk = self.rec[3]
+            else:
+                lean, clos, kinds, rk = self.local_fns[fs]
+            if len(e.args) != len(kinds):
+                raise Unsupported("arity of " + fs)
+            terms = [v(c) for c in clos]
+            for idx, (a, k) in enumerate(zip(e.args, kinds)):
+                if self.rec and fs == self.rec[0] and idx == self.rec[4]:
+                    # the recursion parameter must be passed as `<param> - 1`
+                    if ast.unparse(a).replace(" ", "") != self.rec[1] + "-1":
+                        raise Unsupported("recursive call must pass " + self.rec[1] + " - 1")
+                    terms.append(self.rec[2])
+                    continue
+                t, kt = self.expr(a, out, ind)
+                terms.append(self.coerce(t, kt, k))
+            return self.bind(f"{lean} {' '.join(terms)}", rk, out, ind)
         key = ALIASES.get(fs, fs)
         if key in EXTERN:
             lean, kinds, rk, mon = EXTERN[key]
@@ -415,6 +442,14 @@ class Fn:
                 i += 1; continue
             if isinstance(st, ast.Assign) and len(st.targets) == 1:
                 tg = st.targets[0]
+                if isinstance(tg, ast.Tuple) and len(tg.elts) == 2 and all(isinstance(x, ast.Name) for x in tg.elts):
+                    t, k = self.expr(st.value, out, ind)
+                    if k != "BB":
+                        raise Unsupported("tuple unpacking of " + k)
+                    out.append(f"{ind}let {v(tg.elts[0].id)} : Bytes := {t}.1")
+                    out.append(f"{ind}let {v(tg.elts[1].id)} : Bytes := {t}.2")
+                    self.types[tg.elts[0].id] = "B"; self.types[tg.elts[1].id] = "B"
+                    i += 1; continue
                 if isinstance(tg, ast.Name) and isinstance(st.value, ast.Call) and ast.unparse(st.value.func) == "_Cipher":
                     self.cipher_new(tg.id, st.value, out, ind)
                     i += 1; continue
@@ -439,6 +474,9 @@ class Fn:
                 i += 1; continue
             if isinstance(st, ast.For):
                 self.for_enumerate(st, out, ind)
+                i += 1; continue
+            if isinstance(st, ast.FunctionDef):
+                self.nested_def(st)
                 i += 1; continue
             raise Unsupported("statement " + type(st).__name__ + ": " + ast.unparse(st)[:80])
         return False
@@ -586,6 +624,67 @@ class Fn:
             return f"({c} ≠ 0)", "P"
         raise Unsupported("condition of kind " + k)
 
+    def nested_def(self, fn):
+        """a function defined inside the function being translated: lifted to a definition of its own that
+        takes the variables it closes over as leading parameters; direct recursion is accepted in the one form
+        `if <p> == 0: return …` first, recursive calls passing `<p> - 1` — structural recursion on `<p>`"""
+        a = fn.args
+        if a.vararg or a.kwarg or a.kwonlyargs or a.posonlyargs or a.defaults:
+            raise Unsupported("nested def parameters")
+        kinds = []
+        for p in a.args:
+            ann = ast.unparse(p.annotation) if p.annotation else None
+            if ann not in ANN:
+                raise Unsupported(f"nested def annotation {ann}")
+            kinds.append(ANN[ann])
+        rann = ast.unparse(fn.returns) if fn.returns else None
+        rk = {"bytes": "B", "_typing.Tuple[bytes, bytes]": "BB"}.get(rann)
+        if rk is None:
+            raise Unsupported(f"nested def return annotation {rann}")
+        free = sorted({n.id for n in ast.walk(fn) if isinstance(n, ast.Name)} & set(self.types) - {p.arg for p in a.args})
+        lean = f"Gen.{self.mod}.{self.fn.name}.{fn.name}"
+        G = Fn(self.mod, self.fn)
+        G.local_fns = dict(self.local_fns)
+        G.types = {n: self.types[n] for n in free}
+        for p, k in zip(a.args, kinds):
+            G.types[p.arg] = k
+        body = [s for s in fn.body if not (isinstance(s, ast.Expr) and isinstance(s.value, ast.Constant))]
+        recursive = any(isinstance(n, ast.Call) and isinstance(n.func, ast.Name) and n.func.id == fn.name for n in ast.walk(fn))
+        clos_sig = " ".join(f"({v(n)} : {LEAN_TY[self.types[n]]})" for n in free)
+        lines = []
+        if not recursive:
+            sig = " ".join(f"({v(p.arg)} : {LEAN_TY[k]})" for p, k in zip(a.args, kinds))
+            if not G.block(body, lines, "  ", rk):
+                raise Unsupported("nested def path without return")
+            self.pre_defs.append(f"def {self.fn.name}.{fn.name} {clos_sig} {sig} : R ({LEAN_TY[rk]}) := do")
+            self.pre_defs += lines + [""]
+        else:
+            first = body[0]
+            if not (isinstance(first, ast.If) and not first.orelse and isinstance(first.test, ast.Compare)
+                    and isinstance(first.test.left, ast.Name) and isinstance(first.test.ops[0], ast.Eq)
+                    and const_int(first.test.comparators[0]) == 0 and len(first.body) == 1 and isinstance(first.body[0], ast.Return)):
+                raise Unsupported("recursive nested def must start with `if <p> == 0: return …`")
+            rp = first.test.left.id
+            idx = [p.arg for p in a.args].index(rp)
+            if kinds[idx] != "N" or idx != len(kinds) - 1:
+                raise Unsupported("recursion parameter must be the last, an int")
+            others = " ".join(f"({v(p.arg)} : {LEAN_TY[k]})" for p, k in list(zip(a.args, kinds))[:-1])
+            base = []
+            G0 = Fn(self.mod, self.fn); G0.types = dict(G.types); G0.local_fns = dict(G.local_fns)
+            if not G0.block(first.body, base, "    ", rk):
+                raise Unsupported("base case")
+            G.rec = (fn.name, rp, "p_" + rp, (lean, free, kinds, rk), idx)
+            step = [f"    let {v(rp)} : Nat := p_{rp} + 1"]
+            if not G.block(body[1:], step, "    ", rk):
+                raise Unsupported("recursive case path without return")
+            self.pre_defs.append(f"def {self.fn.name}.{fn.name} {clos_sig} {others} : Nat → R ({LEAN_TY[rk]})")
+            self.pre_defs.append("  | 0 => do")
+            self.pre_defs += base
+            self.pre_defs.append(f"  | p_{rp} + 1 => do")
+            self.pre_defs += step + [""]
+        self.pre_defs = G.pre_defs + self.pre_defs
+        self.local_fns[fn.name] = (lean, free, kinds, rk)
+
     def for_enumerate(self, st, out, ind):
         """`for i, x in enumerate(A): if cond(x): A[i] op= c` — each iteration reads and writes element i only,
         so the loop is a map over A"""
@@ -669,6 +768,7 @@ def translate(repo):
                 raise Unsupported(f"{mod}.{name}: a path does not return")
             sig = " ".join(f"({v(p.arg)} : {LEAN_TY[k]})" for p, k in zip(a.args, kinds))
             pure = not any(("←" in ln) or ("throw" in ln) or (" if " in ln) or ln.strip().startswith("if ") for ln in body)
+            out += F.pre_defs
             if pure:
                 out.append(f"def {name} {sig} : {LEAN_TY[rk]} :=")
                 out += [ln.replace("  pure ", "  ", 1) if ln.strip().startswith("pure ") else ln for ln in body]
